@@ -12,7 +12,7 @@
      amp_ok s                   every ampersand in s begins one of &amp; &lt; &gt; &quot; &#x27; &#039;
      markup_free s              s contains none of < > & and no quote
      isp                        the Unicode table behind str.isprintable: arbitrary *)
-From Verif Require Import lib.Base lib.Str lib.Html lib.PyRepr model.ErrPage proofs.C20_html proofs.C20_json.
+From Verif Require Import lib.Base lib.Str lib.Html lib.PyRepr model.ErrPage proofs.C20_escape proofs.C20_html proofs.C20_json.
 
 (* For every error object (whatever its status line and body), every url string
    and every printability table: with debug off the page is
